@@ -597,6 +597,11 @@ func (fr *Frame) selectInstr(x *ssa.Select, pc *Term, st *State) Value {
 		}
 		saved := ex.clauseProps
 		ex.clauseProps = []string{"C12"}
+		if fr.fn == ex.sweepFn && contains(ex.curProps, "C18") {
+			// a goroutine somebody waits for (wg.Wait under a mutex) that cannot
+			// be woken is also a deadlock
+			ex.clauseProps = []string{"C12", "C18"}
+		}
 		ex.oblige("select-quit", exprAtPos(ex, x.Pos()), x.Pos(), pc, Bool(hasQuit), "every blocking select has an arm on a quit channel closed by Close")
 		ex.clauseProps = saved
 	}
